@@ -325,6 +325,7 @@ func main() {
 	}
 	rn.BigElementChecks()
 	rn.SizeFieldBoundaryCases()
+	rn.ShortUDTCases()
 	rn.Recheck()
 	o.Extra["coverage_matrix"] = rn.Matrix
 	o.Finish("From GocqlV Require Import Lib.Base C12.Model C12.Spec C12.Corr.", "C12.Corr.case", "C12.Corr.run")
